@@ -1,0 +1,21 @@
+//go:build verif
+
+package factory
+
+import (
+	"context"
+
+	"github.com/projecteru2/core/engine"
+	"github.com/projecteru2/core/store"
+	"github.com/projecteru2/core/types"
+)
+
+// RegisterEngineForVerif registers an engine constructor for an endpoint prefix.
+func RegisterEngineForVerif(prefix string, f func(ctx context.Context, config types.Config, nodename, endpoint, ca, cert, key string) (engine.API, error)) {
+	engines[prefix] = f
+}
+
+// ResetEngineCacheForVerif installs a fresh engine cache without the background checkers.
+func ResetEngineCacheForVerif(config types.Config, stor store.Store) {
+	engineCache = NewEngineCache(config, stor)
+}
